@@ -123,8 +123,8 @@ def plan(prop, tier):
         )
     if prop == "C12":
         import math
-        total = 47520
-        rule = ("enumeration of every drop order of 4 object sets (6-7 objects each: Ring, queue clones, regular/direct AsyncFd, never-polled/queued/in-flight/finished/multishot operations, ReadBufPool, ReadBuf) x {final sync-cancel cancels everything, one request completes normally first, completion queue already overflowing with wake-up completions when the drops start}; "
+        total = 63360
+        rule = ("enumeration of every drop order of 4 object sets (6-7 objects each: Ring, queue clones, regular/direct AsyncFd, never-polled/queued/in-flight/finished/multishot operations, ReadBufPool, ReadBuf) x {final sync-cancel cancels everything, one request completes normally first, completion queue already overflowing with wake-up completions when the drops start, submission queue full of unsubmitted entries at every drop}; "
                 "orders that safe Rust cannot express (descriptor before an operation borrowing it) are skipped; ledgers: mapping, descriptor, allocation (tracking allocator), kernel tables (in-flight requests, buffer-ring registrations); distinct = distinct (set, order, mode); plus sampled histories on the real kernel (scenario realmix) torn down in random order")
         shards = 8 if tier == "quick" else 16
         jobs = [gen_job("c12", "native-debug", math.ceil(total / shards), shards, timeout=900)]
@@ -132,7 +132,7 @@ def plan(prop, tier):
             jobs += [gen_job("c12", "native-release", math.ceil(total / 16), 16, timeout=900), gen_job("c12", "asan", math.ceil(total / 16), 16, timeout=1800, lsan=False), gen_job("c12", "miri", 12, 16, timeout=2400)]
         # Corroboration on the real kernel (sampled, does not count towards the enumeration).
         jobs += [gen_job("realmix", "native-debug", 1000 if tier == "quick" else 30000, 8 if tier == "quick" else 16, timeout=3000, aux=True)]
-        return dict(jobs=jobs, level="fault_enumeration", rule=rule, floor_cells=["set:0", "set:1", "set:2", "set:3", "ring-position:0", "ring-position:6", "sync-cancel-mode:1", "sync-cancel-mode:2", "first:ReadBuf", "first:Pool", "real_ops_dropped_in_flight"],
+        return dict(jobs=jobs, level="fault_enumeration", rule=rule, floor_cells=["set:0", "set:1", "set:2", "set:3", "ring-position:0", "ring-position:6", "sync-cancel-mode:1", "sync-cancel-mode:2", "sync-cancel-mode:3", "first:ReadBuf", "first:Pool", "real_ops_dropped_in_flight"],
                     floor_evaluations=20000, exhaustive=True, assumptions=SIMK_ASSUMPTIONS + ["the realmix job (random histories and teardown orders on the real io_uring of this machine with the leak ledger, the quarantine poison check and the descriptor count) is sampled corroboration, not part of the enumeration"], also=[])
     if prop == "C18":
         import math
